@@ -2,9 +2,9 @@ package props
 
 import (
 	"errors"
-	"os"
 	"fmt"
 	"io/fs"
+	"os"
 	"strings"
 
 	"hpverif/internal/core"
